@@ -5,6 +5,7 @@
 -/
 import Bcder.Model.Parse
 import Bcder.Model.Generic
+import Bcder.Model.OssSource
 import Bcder.Spec.X690
 import Bcder.Spec.Values
 import Bcder.Spec.Tlv
@@ -221,6 +222,51 @@ def osDrain (os : OS) : Res Bytes :=
           | .ok s2 => go fuel (i + 1) s2 (acc ++ s1.current.take t)
   go (match os with | .prim b => b.length + 2 | .cons c => c.length + 2) 0 (OSS.new os) []
 
+
+/-- `oss.calls`: the call tokens `rN` (request N) and `aK` (advance min(K, what is granted)) -/
+def parseCallToks (toks : List String) : Option (List (Bool × Nat)) :=
+  toks.mapM fun t =>
+    match t.toList with
+    | 'r' :: ds => (String.ofList ds).toNat?.map fun n => (true, n)
+    | 'a' :: ds => (String.ofList ds).toNat?.map fun n => (false, n)
+    | _ => none
+
+def seenStr : Seen → String
+  | .granted g sl => s!"g{g}:{toHex sl}"
+  | .advanced sl => s!"a:{toHex sl}"
+  | .refused => "refused"
+
+/-- through the model of `OctetStringSource` (each step is `ossRun` on a single call) -/
+def ossCallsModel (os : OS) (calls : List (Bool × Nat)) : String :=
+  let rec go : List (Bool × Nat) → OSS → List String → List String
+    | [], _, acc => acc.reverse
+    | (true, n) :: cs, s, acc =>
+      match OSS.request s n with
+      | .ok (_, s') => go cs s' ((ossRun [.request n] s).map seenStr ++ acc)
+      | .error _ => (("refused") :: acc).reverse
+    | (false, k) :: cs, s, acc =>
+      let t := min k s.current.length
+      match OSS.advance s t with
+      | .ok s' => go cs s' ((ossRun [.advance t] s).map seenStr ++ acc)
+      | .error _ => (("refused") :: acc).reverse
+  " ".intercalate (go calls (OSS.new os) [])
+
+/-- through the abstract conforming source of the stream layer with the policy `ossPol segs` -/
+def ossCallsSpec (segs : List Bytes) (granted0 : Nat) (calls : List (Bool × Nat)) : String :=
+  let pol := ossPol segs
+  let rec go : List (Bool × Nat) → S → List String → List String
+    | [], _, acc => acc.reverse
+    | (true, n) :: cs, a, acc =>
+      match a.baseRequest pol n with
+      | .ok (_, a') => go cs a' ((absRun pol [.request n] a).map seenStr ++ acc)
+      | .error _ => (("refused") :: acc).reverse
+    | (false, k) :: cs, a, acc =>
+      let t := min k a.granted
+      match a.advance t with
+      | .ok a' => go cs a' ((absRun pol [.advance t] a).map seenStr ++ acc)
+      | .error _ => (("refused") :: acc).reverse
+  " ".intercalate (go calls { data := segs.flatten, granted := granted0, reqs := 0, failAt := none, limit := none } [])
+
 def osViews (os : OS) : Res String := do
   let segs ← os.segments
   let bytes ← os.octets
@@ -287,6 +333,10 @@ def handleLeaf (toks : List String) : String :=
     match Mode.ofString mode, ofHex enc with
     | some m, some e => resStr do let os ← osOf m e; pure s!"ok {← osViews os}"
     | _, _ => "bad-op"
+  | "oss.calls" :: mode :: enc :: calls =>
+    match Mode.ofString mode, ofHex enc, parseCallToks calls with
+    | some m, some e, some cs => resStr do let os ← osOf m e; pure s!"ok {ossCallsModel os cs}"
+    | _, _, _ => "bad-op"
   | ["os.cmp", mode, ea, eb] =>
     match Mode.ofString mode, ofHex ea, ofHex eb with
     | some m, some a, some b =>
@@ -508,6 +558,17 @@ def handleSpecTlv (toks : List String) : String :=
         let slice := match t with | .prim _ c => toHex c | _ => "none"
         s!"ok segs={segStr} bytes={toHex c} into={toHex c} len={c.length} empty={b01 c.isEmpty} octets={toHex c} slice={slice} src={toHex c}"
     | _, _ => "bad-op"
+  | "oss.calls" :: mode :: enc :: calls =>
+    match Mode.ofString mode, ofHex enc, parseCallToks calls with
+    | some m, some e, some cs =>
+      match specString m 0x04 e with
+      | none => "err content"
+      | some (t, _) =>
+        -- the segments the grammar sees, and the abstract conforming source over them
+        match t with
+        | .prim _ c => s!"ok {ossCallsSpec [c] c.length cs}"
+        | t => s!"ok {ossCallsSpec (Spec.osSegments (e.length + 2) t) 0 cs}"
+    | _, _, _ => "bad-op"
   | ["os.cmp", mode, ea, eb] =>
     match Mode.ofString mode, ofHex ea, ofHex eb with
     | some m, some a, some b =>
